@@ -7,14 +7,17 @@ import (
 
 // SlicesExact checks the clause "a decoded slice holds exactly the encoded
 // elements" on a re-used target: every slice (not in the protobuf repeated
-// form) that the data contains - seen as non-empty in a fresh decode of the
-// same bytes - must be deep-equal in the re-used target. Nested structs and
-// non-nil pointers are followed; maps are not (they merge by key).
-func SlicesExact(reused, fresh reflect.Value, cfg InstCfg) (bool, string) {
-	return slicesExact(reused, fresh, cfg, false, "", 0)
+// form) that the data contains must be deep-equal to what a fresh decode of the
+// same bytes gives. A slice counts as contained in the data when it is the
+// top-level value, when its field index occurs in the top-level message
+// (present: from the wire), or - deeper down, where presence is not known - when
+// the fresh decode is non-empty. Nested structs and non-nil pointers are
+// followed; maps are not (they merge by key).
+func SlicesExact(reused, fresh reflect.Value, cfg InstCfg, present map[int]bool) (bool, string) {
+	return slicesExact(reused, fresh, cfg, false, "", 0, present, true)
 }
 
-func slicesExact(a, f reflect.Value, cfg InstCfg, proto bool, path string, depth int) (bool, string) {
+func slicesExact(a, f reflect.Value, cfg InstCfg, proto bool, path string, depth int, present map[int]bool, known bool) (bool, string) {
 	if depth > 50 {
 		return true, ""
 	}
@@ -29,10 +32,15 @@ func slicesExact(a, f reflect.Value, cfg InstCfg, proto bool, path string, depth
 			if sf.PkgPath != "" {
 				continue
 			}
-			if tag := sf.Tag.Get("plenc"); tag == "" || tag == "-" {
+			tag := sf.Tag.Get("plenc")
+			if tag == "" || tag == "-" {
 				continue
 			}
-			if ok, p := slicesExact(a.Field(i), f.Field(i), cfg, isProtoField(sf, cfg), path+"."+sf.Name, depth+1); !ok {
+			k := false
+			if depth == 0 && present != nil {
+				k = present[fieldIndex(tag)]
+			}
+			if ok, p := slicesExact(a.Field(i), f.Field(i), cfg, isProtoField(sf, cfg), path+"."+sf.Name, depth+1, nil, k); !ok {
 				return false, p
 			}
 		}
@@ -40,9 +48,9 @@ func slicesExact(a, f reflect.Value, cfg InstCfg, proto bool, path string, depth
 		if f.IsNil() || a.IsNil() {
 			return true, ""
 		}
-		return slicesExact(a.Elem(), f.Elem(), cfg, false, path+"*", depth+1)
+		return slicesExact(a.Elem(), f.Elem(), cfg, proto, path+"*", depth+1, nil, known)
 	case reflect.Slice:
-		if proto || f.Len() == 0 {
+		if proto || (f.Len() == 0 && !known) {
 			return true, ""
 		}
 		if ok, p := Equal(a, f); !ok {
@@ -50,6 +58,60 @@ func slicesExact(a, f reflect.Value, cfg InstCfg, proto bool, path string, depth
 		}
 	}
 	return true, ""
+}
+
+func fieldIndex(tag string) int {
+	n := 0
+	for i := 0; i < len(tag) && tag[i] >= '0' && tag[i] <= '9'; i++ {
+		n = n*10 + int(tag[i]-'0')
+	}
+	return n
+}
+
+// PresentFields lists the field indexes that occur in a top-level struct
+// message (nil if the bytes do not parse).
+func PresentFields(data []byte) map[int]bool {
+	out := map[int]bool{}
+	off := 0
+	for off < len(data) {
+		tag, n, err := uvarint(data[off:])
+		if err != nil {
+			return nil
+		}
+		off += n
+		wt, idx := int(tag&7), int(tag>>3)
+		out[idx] = true
+		switch wt {
+		case WTVarInt:
+			_, n, err := uvarint(data[off:])
+			if err != nil {
+				return nil
+			}
+			off += n
+		case WT64:
+			off += 8
+		case WT32:
+			off += 4
+		case WTLength:
+			l, n, err := uvarint(data[off:])
+			if err != nil || l > uint64(len(data)-off-n) {
+				return nil
+			}
+			off += n + int(l)
+		case WTSlice:
+			ext, err := sliceExtent(data[off:])
+			if err != nil {
+				return nil
+			}
+			off += ext
+		default:
+			return nil
+		}
+		if off > len(data) {
+			return nil
+		}
+	}
+	return out
 }
 
 // Reslice models a caller that re-uses a value the usual way: every slice in
